@@ -11,6 +11,7 @@ import ast
 
 from ..cfg import known_falsy
 from ..model import self_attr, unparse, walk_body_shallow, walk_shallow
+from .util import *  # noqa: F401,F403
 from .util import (single_defs, expand, at, chains_in, value_origins, call_name, call_recv, calls_in, kwarg, names_in, need, node_assign_value, node_writes_attr, norm,
                    one, registrations, where)
 
@@ -172,12 +173,11 @@ def run(ctx):
         cf2 = ctx.cfg(f)
         fa = ctx.facts(f)
         for n in cf2.containing(call):
-            v = node_assign_value(n, "_request_d")
-            ok = v is not None and known_falsy(fa[n.id], "self._request_d")
+            ok = result_stored(cf2, n, call, "_request_d") and known_falsy(fa[n.id], "self._request_d")
             r.check(ok, "%s#%s" % (f.qname, call_name(call)),
                     "request sent without storing it in _request_d under `_request_d` falsy", where(f, call),
                     "two fetches in flight deliver overlapping message ranges",
-                    facts=["assigns _request_d=%s" % (v is not None),
+                    facts=["stored in _request_d=%s" % result_stored(cf2, n, call, "_request_d"),
                            "guard falsy=%s" % known_falsy(fa[n.id], "self._request_d")])
     clearers = sorted({f.name for f, kind, node in prog.attr_accesses(ci, "_request_d", False)
                        if kind == "write" and f.cls is ci and isinstance(node, ast.Assign)
@@ -275,7 +275,8 @@ def run(ctx):
         for t, lab in cf.control_deps_transitive(an.id, within=mbody):
             if t.kind != "test":
                 continue
-            is_skip = any(tx == "%s.offset < self._fetch_offset" % M for tx, pol in cond_atoms(t.stmt.test, True)) and chains_in(t.stmt.test) <= {
+            tt_ = at(ctx, hfr, t.id, t.stmt.test)
+            is_skip = any(tx == "%s.offset < self._fetch_offset" % M for tx, pol in cond_atoms(tt_, True)) and chains_in(tt_) <= {
                 M, M + ".offset", "self", "self._fetch_offset"}
             if not is_skip:
                 extra_conds.append(norm(t.stmt.test))
@@ -290,7 +291,7 @@ def run(ctx):
         v = node_assign_value(n, "_fetch_offset")
         same_block = any(s == n.id and lab is None for s, lab in cf.succ[an.id]) or any(
             s == an.id and lab is None for s, lab in cf.succ[n.id])
-        val_ok = norm(v) in ("%s.offset + 1" % M, "1 + %s.offset" % M)
+        val_ok = norm(at(ctx, hfr, n.id, v)) in ("%s.offset + 1" % M, "1 + %s.offset" % M)
         guarded = ("%s.offset < self._fetch_offset" % M, False) in facts[n.id]
         if same_block and val_ok and guarded:
             adv_ok = True
@@ -372,90 +373,51 @@ def magic_arms(ctx):
 
 
 def wrapper_offset_rule(ctx, r):
-    prog = ctx.prog
+    """Provenance of every offset the per-format decoders yield (offsetflow): W = the wrapper's own offset, I = the
+    offset an inner message carries, LAST = the offset of the last inner message.
+      plain message (no compression)      -> W
+      format 0 wrapper                    -> I   (inner offsets are absolute already)
+      format 1 wrapper                    -> needs W, I and LAST (absolute = wrapper - last inner + inner)"""
+    import re as _re
+    from ..offsetflow import LAST, OffsetFlow, I, UNK, W
+    from ..model import walk_shallow as _ws
     dm, arms = magic_arms(ctx)
+    of = OffsetFlow(ctx, dm, dm.params[2])
     for mag, (g, call) in sorted(arms.items()):
-        # the parameter receiving the wrapper's offset
-        params = g.params
-        wparam = None
-        for i, a in enumerate(call.args):
-            if isinstance(a, ast.Name) and a.id == dm.params[2] and i < len(params):
-                wparam = params[i]
-        need(wparam, "wrapper offset not passed to %s" % g.qname)
-        tainted_funcs = set()
-        for h in g.nested.values():
-            if wparam not in h.params and any(isinstance(x, ast.Name) and x.id == wparam and isinstance(
-                    x.ctx, ast.Load) for x in ast.walk(h.node)):
-                tainted_funcs.add(h.name)
-        # flow-insensitive but kill-aware taint over the loops that yield; one instance per (format, codec, yield):
-        # a loop serves a codec when the guard facts at the loop do not exclude it
-        import re as _re
         cg = ctx.cfg(g)
         fg = ctx.facts(g)
-        sites = []
-        for loop in [x for x in walk_body_shallow(g.body) if isinstance(x, ast.For)]:
-            if "_decode_message_set_iter" not in unparse(loop.iter):
+        n_y = 0
+        for n in cg.nodes:
+            if n.stmt is None or isinstance(n.stmt, (ast.FunctionDef, ast.AsyncFunctionDef)):
                 continue
-            ln = [n for n in cg.nodes if n.kind == "for" and n.stmt is loop]
-            f_at = fg[ln[0].id] if ln else frozenset()
-            for codec in ("CODEC_GZIP", "CODEC_SNAPPY"):
-                excluded = any(_re.match(r"^\w+ == %s$" % codec, t) and not pol for t, pol in f_at) or any(
-                    _re.match(r"^\w+ == CODEC_\w+$", t) and pol and not t.endswith(" == " + codec) for t, pol in f_at)
-                if not excluded:
-                    sites.append((loop, codec[6:].lower()))
-        for loop, codec in sites:
-            it = loop.iter
-            iter_t = any(isinstance(x, ast.Name) and (x.id in tainted_funcs) for x in ast.walk(it)) or any(
-                isinstance(x, ast.Name) and x.id == wparam for x in ast.walk(it))
-            targets = names_in(loop.target)
-            for y in [x for s in loop.body for x in walk_shallow(s) if isinstance(x, ast.Yield)]:
-                if not isinstance(y.value, ast.Tuple) or not y.value.elts:
-                    continue
-                first = y.value.elts[0]
-                fn = names_in(first)
-                dep_wrapper = (bool(fn & {wparam}) and wparam not in targets) or (bool(fn & targets) and iter_t)
-                dep_inner = bool(fn & targets)
-                key = "%s#yield(%s) in for %s" % (g.qname, norm(first), norm(loop.target))
-                if mag == 0:
-                    r.check(dep_inner and not dep_wrapper, key + " [magic0 %s]" % codec,
-                            "format 0 wrapper must yield the inner (absolute) offsets unchanged", where(g, y),
-                            facts=["inner=%s wrapper=%s" % (dep_inner, dep_wrapper)])
+            roots = [n.stmt.iter] if n.kind == "for" else [n.stmt.test] if n.kind == "test" else [n.stmt] if n.kind == "stmt" else []
+            for y in [x for rt in roots for x in _ws(rt) if isinstance(x, (ast.Yield, ast.YieldFrom))]:
+                t = of.yield_tags(g, n, y)
+                plain = any(_re.match(r"^\w+ == CODEC_NONE$", tx) and pol for tx, pol in fg[n.id])
+                comp = any(_re.match(r"^\w+ == CODEC_NONE$", tx) and not pol for tx, pol in fg[n.id]) or any(
+                    _re.match(r"^\w+ == CODEC_(GZIP|SNAPPY)$", tx) and pol for tx, pol in fg[n.id])
+                if not plain and not comp:
+                    comp = I in t or LAST in t
+                    plain = not comp
+                kind = "plain" if plain else "wrapper"
+                n_y += 1
+                shown = sorted(str(x) for x in t)
+                key = "%s#yielded-offset[magic%d %s] %s" % (dm.qname, mag, kind, norm(y.value.elts[0]) if isinstance(
+                    y.value, ast.Tuple) and y.value.elts else norm(y.value))
+                if plain:
+                    r.check(t == {W}, key, "an uncompressed message is not yielded under the offset it was decoded at (offset comes from %s)" % shown,
+                            where(g, y), facts=shown)
+                elif mag == 0:
+                    r.check(t == {I}, key, "format 0 wrapper must yield the inner (absolute) offsets unchanged (offset comes from %s)" % shown,
+                            where(g, y), facts=shown)
                 else:
-                    # the rebase must use the LAST inner offset (wrapper offset = absolute offset of the last inner
-                    # message; inner offsets have gaps after compaction, so a count-based base is wrong)
-                    helper = None
-                    for x in ast.walk(it):
-                        if isinstance(x, ast.Call) and isinstance(x.func, ast.Name) and x.func.id in g.nested:
-                            helper = g.nested[x.func.id]
-                    scope = helper if helper is not None else g
-                    ys = [x for x in ast.walk(scope.node) if isinstance(x, ast.Yield) and isinstance(x.value, ast.Tuple)] if helper else [y]
-                    uses_last = False
-                    for yy in ys:
-                        closure, todo = [], [yy.value.elts[0]]
-                        seen_n = set()
-                        while todo:
-                            e = todo.pop()
-                            closure.append(e)
-                            for nm in names_in(e):
-                                if nm in seen_n:
-                                    continue
-                                seen_n.add(nm)
-                                for a in ast.walk(scope.node):
-                                    if isinstance(a, ast.Assign) and any(isinstance(t, ast.Name) and t.id == nm for t in a.targets):
-                                        todo.append(a.value)
-                        for e in closure:
-                            for x in ast.walk(e):
-                                if isinstance(x, ast.Subscript) and norm(x.slice) in ("-1",):
-                                    uses_last = True
-                                if isinstance(x, ast.Call) and call_name(x) == "max":
-                                    uses_last = True
-                    r.check(dep_wrapper and uses_last, key + " [magic1 %s]" % codec,
+                    r.check({W, I} <= t and UNK not in t and LAST in t, key,
                             "format 1 wrapper yields inner offsets that do not depend on the wrapper's offset "
-                            "(inner offsets are relative in that format)" if not dep_wrapper else
+                            "(inner offsets are relative in that format)" if W not in t else
                             "format 1 rebase does not use the last inner offset: absolute = wrapper - last_inner + inner; a base "
-                            "derived from the message count is wrong for wrappers with gaps (compacted topics)", where(g, y),
-                            "wrapper at offset 102 with 3 inner messages yields 0,1,2; consumer then skips or "
-                            "redelivers", facts=["inner=%s wrapper=%s" % (dep_inner, dep_wrapper)])
+                            "derived from the message count is wrong for wrappers with gaps (compacted topics) (offset comes from %s)" % shown,
+                            where(g, y), "wrapper at offset 102 with 3 inner messages yields 0,1,2; consumer then skips or redelivers", facts=shown)
+        need(n_y >= 2, "yields of the format-%d decoder not found" % mag)
 
 
 MUTANTS = [
